@@ -24,16 +24,36 @@ Fixpoint qhat_loop (fuel : nat) (qhat rhat vn1 vn2 ujn2 : Z) : option Z :=
     end
   else Some qhat.
 
-(* the estimate q̂ for step j (D3) *)
-Definition divBasic_qhat (u v : list Z) (j : nat) : option Z :=
-  let n := length v in
-  let vn1 := nthw v (n - 1) in
-  let ujn := if (j + n <? length u)%nat then nthw u (j + n) else 0 in
+(* the estimate q̂ (D3) from the two leading words of v and the three leading
+   words u[j+n], u[j+n-1], u[j+n-2] of the current dividend window *)
+Definition qhat_calc (vn1 vn2 ujn ujn1 ujn2 : Z) : option Z :=
   if ujn =? vn1 then Some (B - 1)
   else if vn1 <? ujn then None            (* div10WW: quotient overflow / zero divisor *)
   else
-    let (qh, rh) := div10WW_v ujn (nthw u (j + n - 1)) vn1 in
-    qhat_loop 2 qh rh vn1 (nthw v (n - 2)) (nthw u (j + n - 2)).
+    let (qh, rh) := div10WW_v ujn ujn1 vn1 in
+    qhat_loop 2 qh rh vn1 vn2 ujn2.
+
+Definition divBasic_qhat (u v : list Z) (j : nat) : option Z :=
+  let n := length v in
+  let ujn := if (j + n <? length u)%nat then nthw u (j + n) else 0 in
+  qhat_calc (nthw v (n - 1)) (nthw v (n - 2)) ujn (nthw u (j + n - 1)) (nthw u (j + n - 2)).
+
+(* D4-D6 on the window w = u[j:j+qhl]: subtract q̂·v; on borrow add v back to
+   w[0:n] and let the carry into w[n] wrap at B (w[n] is a decimal word); returns
+   the new window and the final quotient digit *)
+Definition divBasic_window (w v qhatv : list Z) (qhat : Z) : list Z * Z :=
+  let n := length v in
+  let qhl := length w in
+  let (w, c) := sub10VV_v w (firstn qhl qhatv) 0 in
+  if c =? 0 then (w, qhat)
+  else
+    let (w2, c2) := add10VV_v (firstn n w) v 0 in
+    let w := w2 ++ skipn n w in
+    let w := if (n <? qhl)%nat
+             then let t := nthw w n + c2 in
+                  firstn n w ++ [if B <=? t then t - B else t]
+             else w in
+    (w, qhat - 1).
 
 (* one iteration of the loop `for j := m; j >= 0; j--` (D3-D6) *)
 Definition divBasic_step (q u v : list Z) (j : nat) : option (list Z * list Z) :=
@@ -48,19 +68,8 @@ Definition divBasic_step (q u v : list Z) (j : nat) : option (list Z * list Z) :
       let qhl := if (length u <? j + n + 1)%nat && (cq =? 0) then n else S n in
       if (length u <? j + qhl)%nat then None         (* u[j:j+qhl] out of range *)
       else
-        let (w, c) := sub10VV_v (win u j qhl) (firstn qhl qhatv) 0 in
+        let (w, qhat) := divBasic_window (win u j qhl) v qhatv qhat in
         let u := splice u j w in
-        let '(u, qhat) :=
-          if c =? 0 then (u, qhat)
-          else
-            (* D6 add back; the carry goes into u[j+n], which wraps at B *)
-            let (w2, c2) := add10VV_v (win u j n) v 0 in
-            let u := splice u j w2 in
-            let u := if (n <? qhl)%nat
-                     then let t := nthw u (j + n) + c2 in
-                          splice u (j + n) [if B <=? t then t - B else t]
-                     else u in
-            (u, qhat - 1) in
         if (j =? m)%nat && (m =? length q)%nat && (qhat =? 0) then Some (q, u)
         else if (length q <=? j)%nat then None       (* q[j] out of range *)
         else Some (splice q j [qhat], u)
